@@ -299,6 +299,34 @@ pub fn run(rep: &mut Report) {
                 nn *= 8;
             }
         }
+        // very large sizes: the first draw after a reset is lastidx + floor(u m); its residues mod 6 must be uniform
+        // (a generator word mapped to too few distinct fractions, e.g. single precision, shows here and only here)
+        for m in [3usize << 22, 1usize << 24] {
+            let cell = format!("large_m_first_draw_residues/m={}", m);
+            let seed = subseed(rep.seed, &cell, &[]);
+            chi2_staged(rep, &cell, "C17/non-uniform-large-m", seed, rep.tier.pick(640, 6400), json!({"m": m}), |s, n| {
+                let counts = (0..16u64)
+                    .into_par_iter()
+                    .map(|c| {
+                        let mut rng = rng_from(mix(&[s, c]));
+                        let mut fy = FYshuffle::new(m);
+                        let mut cnt = vec![0u64; 6];
+                        for _ in 0..n / 16 {
+                            fy.reset();
+                            cnt[fy.next(&mut rng) % 6] += 1;
+                        }
+                        cnt
+                    })
+                    .reduce(|| vec![0u64; 6], |mut a, b| {
+                        for i in 0..6 {
+                            a[i] += b[i];
+                        }
+                        a
+                    });
+                let tot: u64 = counts.iter().sum();
+                (counts, vec![tot as f64 / 6.; 6], 5., 1.)
+            });
+        }
         rep.sample(json!({"leg": "stat", "m": 4, "note": "24 orders counted over the draws, chi-square against equiprobability"}));
     }
     rep.assumptions.push("Xoshiro256++ is taken as a uniform source for the uniformity clause".into());
